@@ -411,3 +411,53 @@ Lemma chain_error_kept_fixed :
   snd (run_calls (cstep fixed) (c_init false) chain_error_after_failed_compile)
   = [OOk; OErr ETriggerUnsupported; OOk; OErr EBrOne].
 Proof. vm_compute. reflexivity. Qed.
+
+(* the universally quantified claims are false for the original version *)
+Lemma never_panics_v0_false : ~ (forall w call, snd (wstep v0 w call) <> OPanic).
+Proof.
+  intros H.
+  apply (H (final (wstep v0) (w_init false)
+              [WAddNode "a" NLambda false; WAddInput "a" START WNormal []; WAddInput END_ "a" WNormal [];
+               WAddBranch "a" ["x"; END_]])
+           (WCompile opt_default [])).
+  vm_compute. reflexivity.
+Qed.
+
+Lemma gstep_panics_v0 : ~ (forall g c, snd (gstep v0 g c) <> OPanic).
+Proof.
+  intros H.
+  apply (H (final (gstep v0) (g_init CGraph false)
+              [GAddNode "a" NLambda false false; GAddNode "p" NPass false false; GAddEdge START "a"; GAddEdge "a" END_])
+           (GCompile opt_default)).
+  vm_compute. reflexivity.
+Qed.
+
+Lemma runner_unaffected_v0_false :
+  ~ (forall w o ord w1 r cs, wstep v0 w (WCompile o ord) = (w1, OCompiled r) ->
+      runner_view (w_g (final (wstep v0) w1 cs)) r = runner_view (w_g w1) r).
+Proof.
+  intros H.
+  remember (final (wstep v0) (w_init false)
+              [WAddNode "a" NLambda false; WAddInput "a" START WNormal ["A"]; WAddInput END_ "a" WNormal []]) as w eqn:Ew.
+  vm_compute in Ew.
+  destruct (wstep v0 w (WCompile opt_default [])) as [w1 o] eqn:E.
+  pose proof E as E'. rewrite Ew in E'. vm_compute in E'.
+  destruct o as [| | |r]; try discriminate E'.
+  specialize (H _ _ _ _ _ [WCompile opt_default []] E).
+  inversion E'; subst w1 r; clear E'. vm_compute in H. discriminate H.
+Qed.
+
+Lemma chain_sticks_v0_false :
+  ~ (forall c e cs, c_err c = Some e ->
+       Forall2 (fun call o => c_is_compile call = true -> o = OErr e) cs (snd (run_calls (cstep v0) c cs))).
+Proof.
+  intros H.
+  specialize (H (final (cstep v0) (c_init false)
+                   [CAppend NLambda None false; CCompile (mkOpt (Some false) 0%Z); CBranch [("b1", NLambda, None)]])
+                EBrOne [CCompile opt_default]).
+  assert (P : c_err (final (cstep v0) (c_init false)
+                   [CAppend NLambda None false; CCompile (mkOpt (Some false) 0%Z); CBranch [("b1", NLambda, None)]])
+              = Some EBrOne) by (vm_compute; reflexivity).
+  specialize (H P). vm_compute in H. inversion H as [|x y l l' H1 H2]; subst.
+  specialize (H1 eq_refl). discriminate H1.
+Qed.
